@@ -102,6 +102,20 @@ theorem argsP_is_Args_Validate (keys : List Bytes) (vals : List (Bytes × Node))
   unfold argsP
   by_cases h : (vals.all fun kv => intsInBounds kv.2) = true <;> simp [h]
 
+/-- C10, the argument clause, over regenerated code from end to end: whatever the typed payload `m` (bindnode's part) holds, an
+invocation that the regenerated `tokenFromModel` — with the regenerated `validate()` and the regenerated `Args.Validate`, which
+walks every value with the regenerated `limits.ValidateIntegerBoundsIPLD` — hands out has every integer of every argument within
+±(2^53−1), at any nesting depth. (`did.Parse`, `OptionalDID`, the empty metadata and the "defined" test are arbitrary here.) -/
+theorem Inv_decoded_args_in_bounds {D C M : Type} [DecidableEq D] (lower : Bytes → Bytes) (didParse : Bytes → GoM D)
+    (optDID : Option Bytes → GoM D) (newMeta : M) (defined : D → Bool)
+    (m : Gen.InvModel C (List (Bytes × Node)) M) (t : Gen.InvDec D C (List (Bytes × Node)) M)
+    (h : Gen.Inv_tokenFromModel lower didParse optDID newMeta (Gen.Inv_validate lower defined)
+          (fun a => Gen.Args_Validate { Keys := a.map (·.1), Values := a }) m = .ok t) :
+    t.arguments.all (fun kv => intsInBounds kv.2) = true := by
+  have hw := Inv_decode_wellformed lower didParse optDID newMeta defined
+    (fun a => Gen.Args_Validate { Keys := a.map (·.1), Values := a }) m t h
+  exact (Args_Validate_ok_iff _).1 hw.2.2.2.2.2.1
+
 example : Gen.Args_Validate { Keys := [[97]], Values := [([97], .list [.int 9007199254740992])] } ≠ .ok () := by
   rw [Ne, Args_Validate_ok_iff]; decide
 
